@@ -103,13 +103,25 @@ int main(void) {
   B(20); B(0x7B); U(layer); U(dtype); U(w); U(h); I(x); I(y);
   B(28); B(0x46); U(0); B(9); I(sv); B(7); tok_put(K_REALP, rb, 0); B(11); STR1(bch); B(8); U(pv);
   B(7); STR1('p');
+#elif ELEM == 13     /* two PATH records: the first explicit with extension scheme 0x0A (both ends = half-width: the modal extensions take the VALUE w), the second with a
+                        new half-width and nothing else but the position (info 0x58): extensions, point list, layer and datatype come from the modal variables */
+  int32_t d1x = (int32_t)nd_range(-LIM, LIM), d1y = (int32_t)nd_range(-LIM, LIM), d2x = (int32_t)nd_range(-LIM, LIM), d2y = (int32_t)nd_range(-LIM, LIM);
+  ASSUME((d1x != 0 || d1y != 0) && (d2x != 0 || d2y != 0));
+  B(22); B(0xFB); U(layer); U(dtype); U(w); B(0x0A); B(4); U(2); tok_put(K_GD, (uint64_t)(int64_t)d1x, (uint64_t)(int64_t)d1y); tok_put(K_GD, (uint64_t)(int64_t)d2x, (uint64_t)(int64_t)d2y); I(x); I(y);
+  B(22); B(0x58); U(h); I(x2); I(y2);
+#elif ELEM == 14     /* the xy-mode is a modal variable that every CELL record resets to absolute: cell A ends in XYRELATIVE mode, the elements of the next cell are absolute */
+  B(16); B(19); B(0x5B); STR1('t'); U(layer); U(dtype); I(x); I(y);
+  cell_by_name('D');
+  B(19); B(0x5B); STR1('t'); U(layer); U(dtype); I(x2); I(y2);
+  B(19); B(0x5B); STR1('t'); U(layer); U(dtype); I(x); I(y);
+  B(20); B(0x7B); U(layer); U(dtype); U(w); U(h); I(x2); I(y2);
 #endif
   B(2);                /* END */
   uint8_t fname[2] = {'f', 0}; uint32_t err = 0; Lib lib = {0};
   READ_OAS(&lib, fname, 0.0, 0.0, &err);
   CHECK(err == 0 && vf_open_count == 0 && !tok_kind_error, "loads without error, token kinds as the specification prescribes, handle released");
   CHECK(tok_k == tok_n, "every token of the file was consumed");
-  CHECK(lib.f3.f1 == ((ELEM == 3 || ELEM == 9 || ELEM == 10 || ELEM == 11) ? 2 : 1), "cells");
+  CHECK(lib.f3.f1 == ((ELEM == 3 || ELEM == 9 || ELEM == 10 || ELEM == 11 || ELEM == 14) ? 2 : 1), "cells");
   Cell* c = lib_cell(&lib, 0); CHECK(c->f0[0] == 'A' && c->f0[1] == 0, "cell name");
 #if ELEM == 0 || ELEM == 1
   CHECK(c->f1.f1 == (ELEM == 1 ? 2 : 1), "polygons");
@@ -130,6 +142,23 @@ int main(void) {
     CHECK(r->f0 == 0 && *(Cell**)&r->f1 == lib_cell(&lib, 1) && lib_cell(&lib, 1)->f0[0] == 'D', "placement by name resolved to the cell defined later");
     CHECK(VXD(r->f2) == (double)x && VYD(r->f2) == (double)y && r->f4 == 1.0 && (r->f5 & 1) == refl, "origin, unit magnification, reflection bit");
     CHECK(r->f3 == (RC == 0 ? 0.0 : RC == 1 ? 3.14159265358979323846 * 0.5 : RC == 2 ? 3.14159265358979323846 : 3.14159265358979323846 * 1.5), "rotation code: 0 / 90 / 180 / 270 degrees"); }
+#elif ELEM == 13
+  { CHECK(c->f3.f1 == 2, "two paths"); FPath* p1 = ((FPath**)c->f3.f2)[1]; struct S_struct_gdstk__FlexPathElement* el = p1->f1;
+    CHECK(p1->f2 == 1 && el->f0 == TAG(layer, dtype), "layer and datatype from the modal variables");
+    CHECK(p1->f0.f0.f1 == 3 && el->f1.f1 == 3, "point list from the modal variable");
+    double* sp = (double*)p1->f0.f0.f2; double* wo = (double*)el->f1.f2; double X = (double)x2, Y = (double)y2;
+    CHECK(sp[0] == X && sp[1] == Y && sp[4] == X + (double)d1x + (double)d2x && sp[5] == Y + (double)d1y + (double)d2y, "spine = new position + the modal deltas");
+    CHECK(wo[0] == (double)h && wo[4] == (double)h, "the new half-width");
+    /* modal extensions hold the VALUE of the first record's half-width (w), not "half-width" as a notion */
+    if (w == 0) CHECK(el->f5 == 0 || (el->f5 == 3 && VXD(el->f6) == 0.0 && VYD(el->f6) == 0.0), "both ends flush");
+    else if (w == h) CHECK(el->f5 == 2 || (el->f5 == 3 && VXD(el->f6) == (double)w && VYD(el->f6) == (double)w), "extensions equal to this path's half-width");
+    else CHECK(el->f5 == 3 && VXD(el->f6) == (double)w && VYD(el->f6) == (double)w, "ends extended by the modal extension value (the first path's half-width)"); }
+#elif ELEM == 14
+  { Cell* d = lib_cell(&lib, 1); CHECK(d->f5.f1 == 2 && d->f1.f1 == 1, "two labels and a rectangle in the second cell");
+    Label* l0 = ((Label**)d->f5.f2)[0]; Label* l1 = ((Label**)d->f5.f2)[1];
+    CHECK(VXD(l0->f2) == (double)x2 && VYD(l0->f2) == (double)y2 && VXD(l1->f2) == (double)x && VYD(l1->f2) == (double)y, "text positions in the new cell are absolute");
+    double* q0 = (double*)((Poly**)d->f1.f2)[0]->f1.f2;
+    CHECK(q0[0] == (double)x2 && q0[1] == (double)y2, "geometry positions in the new cell are absolute"); }
 #elif ELEM == 9
   { CHECK(lib.f3.f1 == 2, "two cells"); Cell* d = lib_cell(&lib, 1);
     CHECK(d->f0 && d->f0[0] == 'D' && d->f0[1] == 0, "second cell named through the CELLNAME table");
